@@ -18,7 +18,7 @@ func init() {
 	register(&Check{
 		Meta: report.Meta{
 			Property: "C10",
-			Rule: "stateless exploration of ALL interleavings (no preemption bound) of the real runner code (runner.go / command_storer.go rewritten so that every go statement, channel send, select and time.Sleep is a scheduling point of a cooperative scheduler; virtual clock) for scripts L0 <<c1 7 true>> <<set $k += 1>> L1 <<c2>> <<set $k += 1>> L2 with one or two commands; " +
+			Rule: "stateless exploration of ALL interleavings (no preemption bound; with two commands: up to 2 (quick) / 3 (thorough) preemptions) of the real runner code (runner.go / command_storer.go rewritten so that every go statement, channel send, select and time.Sleep is a scheduling point of a cooperative scheduler; virtual clock) for scripts L0 <<c1 7 true>> <<set $k += 1>> L1 <<c2>> <<set $k += 1>> L2 with one or two commands; " +
 				"each command gets a handler shape from {raw AddCommand with a channel already holding nil / an error; raw with the channel completed later by a completer thread (send nil, send error, close; buffered, and unbuffered with the sender parked in its send until a poll takes the value); converted func(..), func(..) error (nil / error), func(..) <-chan error, func(..) chan error; built-in wait 0 / 0.5 / 1 / 1.5; unregistered name}, asynchronous handlers ungated or gated (a gate that only the host opens after p in 0..2 polls); " +
 				"the host thread performs up to 8 Next calls and, for wait, advances the virtual clock by steps from {n/2, n/2-1ns, 1ns}; oracle per execution: no Next ever blocks (host stuck inside the API with no enabled thread), no panic; the results follow L0 W* [E]? L1(k=1) W* [E]? L2(k=2) end with W = ErrWaitingForCommandCompletion exactly while completion cannot have been reported, E exactly once iff the command reports an error, " +
 				"no W once completion has been reported and every other thread is quiet; every executed command statement invokes its handler exactly once with (7, true); wait n never completes at a virtual time below n seconds after it started; plus a free-running -race pass over the same shapes; " +
@@ -246,6 +246,9 @@ func c10Body(cfg *c10Config, maxCalls int, results *[]string) (clause, detail st
 				*results = append(*results, fmt.Sprintf("clock+%v", d))
 			}
 		}
+		// time passes between two polls: the other threads get a chance to run even if Next itself
+		// contains no scheduling point
+		vsched.Point("between-polls")
 		quiet := vsched.OthersQuiet() && !vsched.Sleeping()
 		clock := vsched.Now()
 		vsched.EnterAPI()
@@ -362,7 +365,8 @@ func runC10(ctx *report.Ctx) {
 	}
 	maxCalls := 8
 	ctx.Bound("next_calls_per_execution", maxCalls)
-	ctx.Bound("preemption_bound", "none (all interleavings)")
+	bound2 := report.Pick(ctx, 2, 3)
+	ctx.Bound("preemption_bound", fmt.Sprintf("one command: none (all interleavings); two commands: %d", bound2))
 	second := []int{-1, 5, 7, 3, 12, 16} // none, converted-no-result, converted-error-err, raw-later-error, wait-1, raw-unbuffered-later-error
 	if ctx.Quick() {
 		second = []int{-1, 5, 3}
@@ -388,7 +392,11 @@ func runC10(ctx *report.Ctx) {
 		ctx.Current("S: " + cfg.describe())
 		var results []string
 		var clause, detail string
-		ex := vsched.Run(vsched.Options{Choose: c.Choose, PreemptionBound: -1}, func() {
+		pb := -1
+		if len(cfg.cmds) == 2 {
+			pb = bound2
+		}
+		ex := vsched.Run(vsched.Options{Choose: c.Choose, PreemptionBound: pb}, func() {
 			clause, detail = c10Body(cfg, maxCalls, &results)
 		})
 		ws := 0
